@@ -461,8 +461,6 @@ class Scan(object):
             def findall(self_inner, path):
                 return root.findall(path)
         gp._execute_binary_get_tree = lambda: _Tree()
-        gp._get_type_functions = list(self._get_type_functions)
-        gp._error_quark_functions = list(self._error_quark_functions)
         gp.parse()
         self.gdump = gp
 
